@@ -547,6 +547,10 @@ func (me *MemberExpression) WriteTo(cw *CodeWriter) {
 		me.Property.WriteTo(cw)
 		cw.WriteRune(']')
 	} else {
+		if _, isInt := me.Object.(*IntegerLiteral); isInt {
+			// `1.x` is read as a malformed number; `1 .x` is the member access
+			cw.WriteRune(' ')
+		}
 		cw.AddMapping(me.Token.Start)
 		cw.WriteRune('.')
 		me.Property.WriteTo(cw)
